@@ -136,6 +136,26 @@ class C09(F.Check):
                             ks.append(k)
                             names[nm] = k.name
                         self.shifts.append((u1, u2, rp, rq, cr, names, tag, key))
+        # floating reps: the six comparisons of points in different units are mutually consistent for EVERY pair of bit patterns (NaN, +-0,
+        # infinities included): >= is (> or ==), <= is (< or ==), != is not ==, > is < with the operands swapped
+        self.fcons = []
+        fl_pairs = [(us[i], us[j]) for i in range(len(us)) for j in range(len(us)) if i != j][:: (7 if self.tier == "quick" else 2)]
+        for u1, u2 in fl_pairs + [(us[0], us[0])]:
+            for r in ("double", "float"):
+                tag = "%s_%s_%s" % (u1.name, u2.name, r)
+                a = "make_quantity_point<%s>(x)" % u1.cxx
+                b = "make_quantity_point<%s>(y)" % u2.cxx
+                names = {}
+                for nm, op in CMPS:
+                    k = F.Kernel("c09_f%s_%s" % (nm, tag), "bool", [(r, "x"), (r, "y")], "return %s %s %s;" % (a, op, b),
+                                 key={"U1": u1.name, "U2": u2.name, "rep": r}, family="float_cmp")
+                    ks.append(k)
+                    names[nm] = k.name
+                k = F.Kernel("c09_fltswap_%s" % tag, "bool", [(r, "x"), (r, "y")], "return %s < %s;" % (b, a),
+                             key={"U1": u1.name, "U2": u2.name, "rep": r}, family="float_cmp")
+                ks.append(k)
+                names["lt_swapped"] = k.name
+                self.fcons.append((names, r, tag, k.key))
         # operations without affine meaning must not compile (compiler verdicts observed at lowering; one positive control per family)
         self.noaffine = []
         i2 = [("int32_t", "x"), ("int32_t", "y")]
@@ -313,6 +333,21 @@ class C09(F.Check):
                     return T.TRUE, T.and_(T.eq(a_.ub, b_.ub), T.or_(a_.ub, T.eq(a_.ret, b_.ret)))
                 obs.append(F.Ob("shift_%s:%s" % (nm, tag), xs, fnc, key=key, kernels=[names[nm], names[plain]],
                                 note="p += q / p -= q equal p + q / p - q when the point's unit and rep are the common ones"))
+        for names, r, tag, key in self.fcons:
+            if any(K[n_].kernel.dropped for n_ in names.values()):
+                self.extra_cov["dropped_float_cmp"] = self.extra_cov.get("dropped_float_cmp", 0) + 1
+                continue
+            w = F.CTYPES[r][1]
+
+            def ffn(K, x, y, names=names):
+                e = {n_: K[k_](x, y) for n_, k_ in names.items()}
+                ub = T.or_(*[v.ub for v in e.values()])
+                return T.TRUE, T.and_(T.not_(ub),
+                                      T.eq(e["ge"].ret, T.or_(e["gt"].ret, e["eq"].ret)), T.eq(e["le"].ret, T.or_(e["lt"].ret, e["eq"].ret)),
+                                      T.eq(e["ne"].ret, T.not_(e["eq"].ret)), T.eq(e["gt"].ret, e["lt_swapped"].ret),
+                                      T.not_(T.and_(e["lt"].ret, e["gt"].ret)))
+            obs.append(F.Ob("float_cmp_consistent:" + tag, [("x", T.BV(w)), ("y", T.BV(w))], ffn, routes=F.FP_ROUTES, key=key, kernels=list(names.values()),
+                            note="floating reps, every pair of bit patterns: >= is (> or ==), <= is (< or ==), != is not ==, p > q is q < p, never both < and >"))
         for name, must_compile in self.noaffine:
             d = K[name].kernel.dropped
             if must_compile is None:
